@@ -228,6 +228,8 @@ def r2_stages(ctx):
 
 
 def r3_name_selector(ctx):
+    from .c17 import names_sorted
+    names_sorted(ctx)
     m, f = _lts(ctx)
     R = Resolver(f, keep=KEEP)
     fn = [st for st in walk_no_nested(f, False) if isinstance(st, ast.Assign)
